@@ -162,11 +162,12 @@ def header_doc(iface):
     return ("\n".join(out) + "\n") if out else ""
 
 
-def render_iface_decl(iface):
+def render_iface_decl(iface, grouped=False):
+    """grouped: the spec as it stands inside a parenthesised `type ( ... )` group (no `type` keyword)"""
     lines = []
     for ln in iface.get("typedoc", []):
         lines.append("// " + ln)
-    lines.append("type %s interface {" % iface["name"])
+    lines.append("%s%s interface {" % ("" if grouped else "type ", iface["name"]))
     for ln in header_comment_lines(iface):
         lines.append("\t//" + ln)
     lines.append("\tshoot.RestClient[%s]" % iface["name"])
@@ -176,12 +177,44 @@ def render_iface_decl(iface):
             lines.append("\t" + ln)
         lines.append("\t" + signature(m, iface.get("ctxpkg") or "context"))
     lines.append("}")
+    if grouped:
+        lines = [("\t" + ln) if ln else "" for ln in lines]
     return "\n".join(lines)
 
 
-def render_package(pkg, ifaces, modpath=None):
-    """-> {filename: content}; all interfaces in rest.go, structs marked where=other in types.go,
-    where=sub in sub/sub.go (package sub)"""
+# how the interface declarations of rest.go are laid out
+#   single     : one `type X interface {…}` declaration each
+#   group      : all of them in ONE parenthesised `type ( … )` declaration
+#   grouplead  : the same, a type that is no client interface first in the group
+#   mixed      : the first one on its own, the others in a group behind a non-client type
+#   mixedtail  : all but the last in a group, the last one on its own
+#   eachgroup  : each in a parenthesised declaration of its own
+DECL_LAYOUTS = ["single", "group", "grouplead", "mixed", "mixedtail", "eachgroup"]
+
+
+def render_iface_decls(ifaces, layout):
+    def group(xs, lead=None):
+        inner = ([lead, ""] if lead else [])
+        for x in xs:
+            inner += [render_iface_decl(x, grouped=True), ""]
+        return "type (\n" + "\n".join(inner[:-1]) + "\n)"
+    single = [render_iface_decl(i) for i in ifaces]
+    if layout == "group":
+        return [group(ifaces)]
+    if layout == "grouplead":
+        return [group(ifaces, "\tverifLead struct{ N int }")]
+    if layout == "mixed":
+        return single[:1] + ([group(ifaces[1:], "\tverifNote string")] if ifaces[1:] else ["type (\n\tverifNote string\n)"])
+    if layout == "mixedtail":
+        return ([group(ifaces[:-1])] if ifaces[:-1] else []) + single[-1:]
+    if layout == "eachgroup":
+        return [group([i]) for i in ifaces]
+    return single
+
+
+def render_package(pkg, ifaces, modpath=None, layout="single"):
+    """-> {filename: content}; all interfaces in rest.go (declarations laid out as `layout` says, see DECL_LAYOUTS), structs marked
+    where=other in types.go, where=sub in sub/sub.go (package sub)"""
     files = {}
     imports = {'"net/http"', '"github.com/lopolopen/shoot"'}
     # the context package may be imported under another name (the generator must recognise the RESOLVED type):
@@ -214,8 +247,8 @@ def render_package(pkg, ifaces, modpath=None):
                 other.append(s)
             else:
                 sub.append(s)
-    for i in ifaces:
-        body.append(render_iface_decl(i))
+    for d in render_iface_decls(ifaces, layout):
+        body.append(d)
         body.append("")
     files["rest.go"] = "\n".join(body)
     if other:
@@ -848,7 +881,9 @@ def c01_case(ctx, g, cid, shape, mode, two, ctxflag):
     names = ["Client", "Admin"] if two else [rng.choice(["Client", "UserAPI", "C", "Svc", "HTTPApi"])]
     ifaces, bad = c01_shape(rng, g, shape, names, ctxflag)
     modpath = "verifcases/c_" + cid
-    files = render_package("cs", ifaces, modpath=modpath)
+    import zlib
+    layout = DECL_LAYOUTS[zlib.crc32(cid.encode()) % len(DECL_LAYOUTS)]
+    files = render_package("cs", ifaces, modpath=modpath, layout=layout)
     if mode == "type":
         # the (only / deliberately shaped) interface
         sel_ifaces = [bad] if shape != "wf" else ifaces[:1]
@@ -874,7 +909,7 @@ def c01_case(ctx, g, cid, shape, mode, two, ctxflag):
             feats.add("result:" + m["result"]["shape"])
             for p in m["params"]:
                 feats.add("param:" + p["kind"] + ("-ptr" if p.get("ptr") else ""))
-    return {"id": cid, "area": "rest", "files": files, "runs": [{"args": args}], "oracle": {}, "sexp": sexp, "cmd": "shoot " + " ".join(args),
+    return {"id": cid, "area": "rest", "files": files, "runs": [{"args": args}], "oracle": {}, "sexp": sexp, "cmd": "shoot " + " ".join(args) + " [declaration layout: %s]" % layout,
             "key": sexp, "mode": mode, "shape": shape, "flags": [], "feats": sorted(feats), "nifaces": len(sel_ifaces)}
 
 
